@@ -92,9 +92,15 @@ def units(tier):
         for i in range(0, len(maps), 25):
             out.append({'kind': 'rename', 'economy': name, 'country': c, 'maps': maps[i:i + 25]})
     pool = embedding_pool()
-    keys = sorted(pool)
+    keys = sorted(k for k in pool if k != 'pc2')
     for n in (2, 3):
         for sel in itertools.permutations(keys, n):
+            for ext in (None, 'first', 'last'):
+                out.append({'kind': 'embed', 'selection': list(sel), 'ext': ext})
+    # the two treasury + central bank economies together (with at most one of the others), in every order
+    for third in [None] + [k for k in keys if k != 'pc']:
+        members = ['pc', 'pc2'] + ([third] if third else [])
+        for sel in itertools.permutations(members):
             for ext in (None, 'first', 'last'):
                 out.append({'kind': 'embed', 'selection': list(sel), 'ext': ext})
     for builder in ('SIM', 'SIMEX1', 'PC'):
@@ -219,7 +225,10 @@ def embedding_pool():
     pc.update({'gov': 'TRECB', 'dep': 'rate', 'mon': True, 'r': 'rstep', 'ic': True})
     fed = [topo.base_country('FX', 'FED'), topo.base_country('FR', 'FED', region=True)]
     fed[1]['region_default_currency'] = True      # Region(model, code): currency defaults to the federation's
-    return {'sim': [sim], 'swapped': [swapped], 'simex': [simex], 'pc': [pc], 'fed': fed}
+    # a second economy with a treasury and a central bank (same sector codes CB / TRE, same registered remittance as 'pc')
+    pc2 = topo.base_country('N')
+    pc2.update({'gov': 'TRECB', 'dep': 'const', 'mon': True, 'tax': 0.25, 'G': 'G7', 'a1': 0.7})
+    return {'sim': [sim], 'swapped': [swapped], 'simex': [simex], 'pc': [pc], 'fed': fed, 'pc2': [pc2]}
 
 
 def economy_vars(sol_k, ccodes, multi_names):
